@@ -121,7 +121,7 @@ def stepC11 (d : DSt) (op : String) (got : String) : StepResult DSt :=
     else { st := { kind := kind }, expected := some "ok", cov := [s!"new-{k}"] }
   | ["new", k, mtu] =>
     -- the real TCP / Unix / UDP transport receive loop; its own (send) MTU must not matter on receive
-    if (k == "tcp" || k == "unix") && mtu.toNat?.isSome then
+    if (k == "tcp" || k == "unix" || k == "tcpr") && mtu.toNat?.isSome then
       { st := { kind := .sock }, expected := some "ok", cov := [s!"new-{k}"] }
     else if k == "udp" && mtu.toNat?.isSome then
       -- datagrams from a plain socket (no sending MTU): one block per `sf`
@@ -173,6 +173,23 @@ def stepC11 (d : DSt) (op : String) (got : String) : StepResult DSt :=
     if k.toNat?.isNone then { st := d, expected := some "bad-op" } else
     if !d.plainUdp then { st := d, expected := some "skip" } else
     sfStep d got crash ["sfr-refused-mid-block"]
+  | ["rst"] =>
+    -- tcpr: the connection of a permanent outgoing TCP face is aborted and the face dials again.  The
+    -- byte stream of the old connection has ENDED: the block received only in part is gone, and the
+    -- new connection starts with an empty receive buffer (what was defined and not written is dropped)
+    if d.kind != .sock then { st := d, expected := some "skip" } else
+    match d.dead with
+    | some r => { st := d, expected := some s!"dead {r}", spec := crash }
+    | none =>
+      -- specification: the blocks completely handed over stay owed, the others are dropped
+      let kept := (d.expect.foldl (fun (acc : List (Nat × String) × Nat) b =>
+                    if acc.2 + b.1 ≤ d.credit then (acc.1 ++ [b], acc.2 + b.1) else (acc.1, d.credit + 1)) ([], 0)).1
+      let sent := kept.foldl (fun a b => a + b.1) 0
+      let hang : List SpecFail := if got.startsWith "hang" then [⟨"no-spin", "hang", s!"rst: {got}"⟩] else []
+      { st := { d with stream := [], appPending := [], expect := kept, credit := sent, undelivered := 0,
+                       specDead := d.specDead || got.startsWith "hang" },
+        expected := some "ok", spec := crash ++ hang,
+        cov := [if d.appPending.isEmpty then "rst-at-boundary" else "rst-mid-block"], nontrivial := !d.appPending.isEmpty }
   | [rdop, n] =>
     if rdop != "rd" && rdop != "rde" then { st := d, expected := some "bad-op" } else
     let withErr := rdop == "rde"
